@@ -308,3 +308,21 @@ Fixpoint unfold (fuel : nat) (h : list (N * qobj)) (v : qv) : option pv :=
       | QPers p => option_map PPers (unfold f h p)
       end
   end.
+
+(* ---- successive load() calls on one Unpickler: it keeps its memo and objects between calls and
+   starts each call with an empty stack and protocol 0 (C11) ------------------------------------- *)
+Definition qrestart (pst : qstate) : qstate :=
+  {| q_stack := []; q_memo := q_memo pst; q_heap := q_heap pst; q_next := q_next pst; q_proto := 0 |}.
+
+(* the values of successive load() calls, each with the machine state it left *)
+Fixpoint qload_all (progs : list (list insn)) (pst : qstate) : option (list (qv * qstate)) :=
+  match progs with
+  | [] => Some []
+  | p :: r =>
+      match qrun p (qrestart pst) with
+      | Some (x, pst') =>
+          match qload_all r pst' with Some xs => Some ((x, pst') :: xs) | None => None end
+      | None => None
+      end
+  end.
+
